@@ -622,7 +622,7 @@ Proof. intros I Hb K U. pose proof (i_sub s I K U). congruence. Qed.
 
 Lemma inv_do_step s e : inv s -> inv (do_step s e).
 Proof.
-  intros I. destruct e as [c|c|c|c|c|c|c|c| |id| | | | | | | ]; cbn [do_step].
+  intros I. destruct e as [c|c|c|c|c|c|c|c|c| |id| | | | | | | | ]; cbn [do_step].
   - (* Register *) destruct (stof s c) eqn:E; try assumption. now apply inv_register.
   - (* Write *)
     destruct (stof s c) as [|id mb|id mb|id|id|id r] eqn:E; try assumption.
@@ -661,6 +661,12 @@ Proof.
     + unfold written.
       pose proof (inv_written_lock s c id mb None I (or_intror E) Sh) as H. apply H.
       apply (lock_released s c _ id mb I E). destruct mb; congruence.
+  - (* WStallEnvFail *)
+    destruct (stof s c) as [|id mb|id mb|id|id|id r] eqn:E; try assumption.
+    rewrite fail_write_eq. apply inv_after_fail.
+    assert (Hc : stof s c <> CNone) by (rewrite E; congruence).
+    pose proof (inv_close_lock s c RConn None I Hc) as H. rewrite E in H. cbn [id_of] in H.
+    apply H. apply (lock_released s c _ id mb I E). congruence.
   - (* TFire *)
     destruct (stof s c) as [|id mb|id mb|id|id|id r] eqn:E; try assumption.
     apply inv_status; try assumption; try (rewrite E); try congruence.
@@ -725,6 +731,15 @@ Proof.
       (apply inv_drain_rd; try assumption;
        [ rewrite R; reflexivity | discriminate | reflexivity
        | apply sub_not_live; [assumption | rewrite R; reflexivity] ]).
+  - (* RStop *)
+    destruct (s_rd s) eqn:R; try assumption. destruct (s_kind s) eqn:K; try assumption.
+    destruct (s_gstop s) eqn:G; [|assumption].
+    apply inv_set_rd; try assumption.
+    + intros o; rewrite R; discriminate.
+    + discriminate.
+    + unfold dead; cbn; rewrite R, G; reflexivity.
+    + intros _. apply (i_shut s I). now right.
+    + intros K2; congruence.
 Qed.
 
 Lemma inv_run s l : inv s -> inv (run s l).
@@ -946,7 +961,7 @@ Proof. intros K E. cbn [do_step]. destruct (s_kind s) eqn:K2; [congruence| |]; r
 
 Lemma p_noop_done s c id r e :
   stof s c = CDone id r ->
-  match e with Register c' | Write c' | TFire c' | TRemove c' | Cancel c' | WStall c' | WStallEnd c' | WriteEnvFail c' => c' = c | _ => False end ->
+  match e with Register c' | Write c' | TFire c' | TRemove c' | Cancel c' | WStall c' | WStallEnd c' | WStallEnvFail c' | WriteEnvFail c' => c' = c | _ => False end ->
   do_step s e = s.
 Proof.
   intros E H. destruct e; try contradiction; subst; cbn [do_step]; rewrite E; try reflexivity.
@@ -1445,4 +1460,394 @@ Proof.
   apply (sim_upd k p _ x c (PFin true [OCancelled]) _ (CDone id RCancelled) M); try assumption.
   - apply sp_like_cs.
   - exists id, RCancelled. split; [reflexivity | now left].
+Qed.
+
+(** N *)
+Lemma sim_notify k p x p' :
+  sim k p x -> spec_step k p ENotify = Some p' -> sim k p' (exec_event x ENotify).
+Proof.
+  intros M Hs. cbn [spec_step] in Hs.
+  destruct (live p) eqn:Lv; [|discriminate]. destruct (is_ws (k_kind k)) eqn:W; [|discriminate].
+  destruct (k_sub k) eqn:Ks; [|discriminate]. cbn [andb] in Hs. inversion Hs; subst p'.
+  assert (Ph : p_phase p = PhLive) by (unfold live in Lv; destruct (p_phase p); congruence).
+  destruct (sim_live k p x M Ph) as (R&Sh&L).
+  assert (U : s_sub (x_s x) = SSub) by (rewrite (m_sub k p x M); unfold sub_of; now rewrite Ks, Ph).
+  cbn [exec_event]. unfold on_s. cbn [do_step]. rewrite R, U.
+  pose proof (inv_set_nrecv (x_s x) (s_nrecv (x_s x) + 1) (m_inv k p x M)) as I2.
+  destruct M as [a b c0 d e f g h i].
+  constructor; cbn [x_s x_faulted x_subq x_resid set_nrecv s_kind s_rd s_shut s_lock s_sub s_nrecv p_phase p_cs p_stalled p_subq p_nn p_nprobe]; try assumption.
+  - congruence.
+Qed.
+
+(** Q *)
+Lemma sim_query k p x p' :
+  sim k p x -> spec_step k p EQuery = Some p' -> sim k p' (exec_event x EQuery).
+Proof.
+  intros M Hs. cbn [spec_step] in Hs. inversion Hs; subst p'. cbn [exec_event].
+  pose proof (m_sub k p x M) as U.
+  destruct M as [a b c0 d e f g h i].
+  constructor; cbn [x_s x_faulted x_subq x_resid p_phase p_cs p_stalled p_subq p_nn p_nprobe]; try assumption.
+  rewrite d. f_equal. rewrite U. unfold sub_of, live. destruct (k_sub k); [|reflexivity].
+  destruct (p_phase p); reflexivity.
+Qed.
+
+(** W *)
+Lemma crel_stall_mono ph v w : crel false ph v w -> crel true ph v w.
+Proof. destruct v; cbn; intuition discriminate. Qed.
+
+Lemma p_wstall s c id mb : stof s c = CReg id mb -> s_lock s = None -> s_shut s = false ->
+  let s' := do_step s (WStall c) in
+  s_kind s' = s_kind s /\ s_rd s' = s_rd s /\ s_shut s' = false /\ s_sub s' = s_sub s /\ s_nrecv s' = s_nrecv s /\
+  upd1 s s' c (CStall id mb).
+Proof.
+  intros E L Sh. cbn zeta. cbn [do_step]. unfold lock_free. rewrite E, L, Sh. cbn [negb andb].
+  repeat split; try reflexivity; try assumption.
+  - unfold stof. cbn. apply cget_cset_same.
+  - intros c' Hc. unfold stof. cbn. now apply cget_cset_other.
+Qed.
+
+Lemma sim_stall k p x c p' :
+  sim k p x -> spec_step k p (EStallStart c) = Some p' -> sim k p' (exec_event x (EStallStart c)).
+Proof.
+  intros M Hs. cbn [spec_step] in Hs. destruct (live p) eqn:Lv; cbn [negb] in Hs; [|discriminate].
+  assert (Ph : p_phase p = PhLive) by (unfold live in Lv; destruct (p_phase p); congruence).
+  destruct (sp_start (k_n k) p c false None) as [p0|] eqn:Hs0; [|discriminate]. inversion Hs; subst p'.
+  destruct (sp_start_inv _ _ _ _ _ _ Hs0) as [Hn [(_&Sr&->)|(Ph'&_)]]; [|congruence].
+  destruct (sim_live k p x M Ph) as (R&Sh&L). specialize (L (srv_reads_unstalled p Sr)).
+  cbn [exec_event]. unfold on_s. cbn [run fold_left].
+  destruct (p_register (x_s x) c (sim_none k p x c M Hn)) as [G1 U1]. set (s1 := do_step (x_s x) (Register c)) in *.
+  destruct G1 as (g1&g2&g3&g4&g5&g6&g7).
+  destruct (p_wstall s1 c _ _ (proj1 U1) ltac:(congruence) ltac:(congruence)) as (h1&h2&h3&h4&h5&U2).
+  set (s2 := do_step s1 (WStall c)) in *.
+  assert (I2 : inv s2) by (apply inv_do_step, inv_do_step, (m_inv k p x M)).
+  pose proof (upd1_trans _ _ _ _ _ _ U1 U2) as U.
+  pose proof (srv_reads_unstalled p Sr) as St.
+  destruct M as [a b c0 d e f g h i].
+  constructor; cbn [x_s x_faulted x_subq x_resid sp_cs p_phase p_cs p_stalled p_subq p_nn p_nprobe]; try assumption; try congruence.
+  - rewrite Ph. repeat split; [congruence | congruence | discriminate].
+  - intros c'. rewrite pget_pset. destruct (c' =? c) eqn:E.
+    + apply N.eqb_eq in E; subst c'. rewrite (proj1 U). right. left. rewrite Ph. repeat split. eauto.
+    + apply N.eqb_neq in E. rewrite (proj2 U c' E). apply crel_stall_mono. rewrite <- St. apply i.
+Qed.
+
+(** G *)
+Lemma repeat_snoc {A} (a : A) n : repeat a (S n) = repeat a n ++ [a].
+Proof. induction n as [|n IH]; [reflexivity|]. cbn [repeat app] in *. now rewrite <- IH. Qed.
+
+Lemma sim_probe k p x c p' :
+  sim k p x -> spec_step k p (EProbe c) = Some p' -> sim k p' (exec_event x (EProbe c)).
+Proof.
+  intros M Hs. cbn [spec_step] in Hs.
+  destruct (is_async (k_kind k) && live p && srv_reads p); [|discriminate].
+  destruct (pget (p_cs p) c) as [|kn|[|] l] eqn:E; try discriminate. inversion Hs; subst p'.
+  destruct (fin_done k p x c _ _ M E) as (id&r&Ed&_).
+  cbn [exec_event]. rewrite Ed. cbn [id_of]. rewrite (no_residue_inv _ c id r (m_inv k p x M) Ed).
+  destruct M as [a b c0 d e f g h i].
+  constructor; cbn [x_s x_faulted x_subq x_resid p_phase p_cs p_stalled p_subq p_nn p_nprobe]; try assumption.
+  rewrite e. symmetry. apply repeat_snoc.
+Qed.
+
+(** *** the fault: up to the probe point *)
+Lemma p_fail3 s : s_rd s = RAlive ->
+  let s' := run s [ReadErr; SubEnd; OwnShut] in
+  s_kind s' = s_kind s /\ s_rd s' = ROwnShut /\ s_shut s' = true /\ s_gstop s' = s_gstop s /\ s_lock s' = s_lock s /\
+  s_sub s' = (match s_kind s, s_sub s with KWs, SSub => SEnded | _, u => u end) /\ s_nrecv s' = s_nrecv s /\
+  same_cs s s'.
+Proof.
+  intros R. cbn zeta. cbn [run fold_left do_step]. rewrite R.
+  cbn [set_rd set_shut set_sub s_rd s_kind s_shut s_gstop s_lock s_sub s_nrecv].
+  destruct (s_kind s) eqn:K; [|destruct (s_sub s) eqn:U|destruct (s_sub s) eqn:U];
+    cbn [set_rd set_shut set_sub s_rd s_kind s_shut s_gstop s_lock s_sub s_nrecv];
+    repeat split; auto.
+Qed.
+
+Lemma p_unstall_fail s b id mb : s_shut s = true -> stof s b = CStall id mb ->
+  let s' := do_step s (WStallEnd b) in
+  s_kind s' = s_kind s /\ s_rd s' = s_rd s /\ s_shut s' = true /\ s_lock s' = None /\ s_sub s' = s_sub s /\
+  s_nrecv s' = s_nrecv s /\ stof s' b = CDone id RConn /\
+  forall c', c' <> b -> stof s' c' = stof s c' \/ stof s' c' = deliver_st (stof s c') RConn.
+Proof.
+  intros Sh E. cbn zeta. cbn [do_step]. rewrite E, Sh. split; [|split; [|split; [|split; [|split; [|split; [|split]]]]]].
+  - rewrite fail_write_eq, kind_after_fail. reflexivity.
+  - rewrite fail_write_eq, rd_after_fail. reflexivity.
+  - rewrite fail_write_eq. unfold after_fail, own_fail. cbn [set_pc set_lock s_kind]. destruct (s_kind s); [|cbn|]; cbn; assumption || reflexivity.
+  - rewrite fail_write_eq, lock_after_fail. reflexivity.
+  - rewrite fail_write_eq. unfold after_fail, own_fail. cbn [set_pc set_lock s_kind]. destruct (s_kind s); reflexivity.
+  - rewrite fail_write_eq. unfold after_fail, own_fail. cbn [set_pc set_lock s_kind]. destruct (s_kind s); reflexivity.
+  - apply stof_fail_write.
+  - intros c' Hc. rewrite fail_write_eq. unfold after_fail, own_fail. cbn [set_pc set_lock s_kind].
+    destruct (s_kind s); unfold stof; cbn [set_shut set_gstop drain_all set_pc s_cs s_pending].
+    + left. now apply cget_cset_other.
+    + rewrite drain_get. rewrite (cget_cset_other _ _ _ _ Hc).
+      destruct (has_caller _ c'); [now right | now left].
+    + left. now apply cget_cset_other.
+Qed.
+
+Lemma p_lockshut s : s_rd s = ROwnShut -> s_lock s = None ->
+  let s4 := do_step s LockShut in
+  s_kind s4 = s_kind s /\ s_rd s4 = (if is_tcp (s_kind s) then RShutDone else ROwnShut) /\
+  s_shut s4 = s_shut s /\ s_lock s4 = None /\ s_sub s4 = s_sub s /\ s_nrecv s4 = s_nrecv s /\ same_cs s s4.
+Proof.
+  intros R L. cbn zeta. cbn [do_step]. rewrite R. unfold lock_free. rewrite L.
+  destruct (s_kind s) eqn:K; cbn [is_tcp set_rd s_kind s_rd s_shut s_lock s_sub s_nrecv]; rewrite ?K;
+    repeat split; auto.
+Qed.
+
+Lemma sub_of_fail k p x :
+  sim k p x -> (k_sub k = true -> k_kind k = KWs) -> p_phase p = PhLive ->
+  (match s_kind (x_s x), s_sub (x_s x) with KWs, SSub => SEnded | _, u => u end) = sub_of k PhWindow.
+Proof.
+  intros M Hk Ph. rewrite (m_kind k p x M), (m_sub k p x M), Ph. unfold sub_of.
+  destruct (k_sub k) eqn:Ks; [rewrite (Hk eq_refl); reflexivity | destruct (k_kind k); reflexivity].
+Qed.
+
+Lemma sim_fault_park k p x :
+  (k_sub k = true -> k_kind k = KWs) ->
+  sim k p x -> p_phase p = PhLive -> sim k (sp_phase p PhWindow) (exec_event x EFaultPark).
+Proof.
+  intros Hk M Ph. destruct (sim_live k p x M Ph) as (R&Sh&L).
+  cbn [exec_event]. unfold on_s, fault_to_shutdown.
+  destruct (p_fail3 (x_s x) R) as (a1&a2&a3&a4&a5&a6&a7&S2).
+  set (s2 := run (x_s x) [ReadErr; SubEnd; OwnShut]) in *.
+  assert (I2 : inv s2) by apply inv_run, (m_inv k p x M).
+  rewrite (sub_of_fail k p x M Hk Ph) in a6.
+  assert (I4 : inv (do_step (unstall s2) LockShut)).
+  { apply inv_do_step. unfold unstall. destruct (s_lock s2); [destruct (s_shut s2); [now apply inv_do_step | assumption] | assumption]. }
+  unfold unstall in *. rewrite a5 in *. rewrite a3 in *.
+  destruct (s_lock (x_s x)) as [b|] eqn:Lk.
+  - (* a stalled writer: it is woken, fails and releases the lock *)
+    assert (St : p_stalled p = true) by (destruct (p_stalled p); [reflexivity | specialize (L eq_refl); discriminate]).
+    destruct (proj1 (i_lock _ (m_inv k p x M) b) Lk) as (id&mb&Eb).
+    assert (Eb2 : stof s2 b = CStall id mb) by (rewrite S2; exact Eb).
+    destruct (p_unstall_fail s2 b id mb a3 Eb2) as (b1&b2&b3&b4&b5&b6&b7&b8).
+    set (s3 := do_step s2 (WStallEnd b)) in *.
+    pose proof (p_lockshut s3 ltac:(congruence) b4) as Hfin. cbn zeta in Hfin.
+    destruct Hfin as (c1&c2&c3&c4&c5&c6&S4). set (s4 := do_step s3 LockShut) in *.
+    destruct M as [m1 m2 m3 m4 m5 m6 m7 m8 m9].
+    constructor; cbn [x_s x_faulted x_subq x_resid sp_phase p_phase p_cs p_stalled p_subq p_nn p_nprobe]; try assumption; try congruence.
+    + rewrite Ph in m3. exact m3.
+    + rewrite c2. replace (s_kind s3) with (k_kind k) by congruence. repeat split; congruence.
+    + intros c'. rewrite S4. specialize (m9 c'). rewrite Ph, St in m9. rewrite St.
+      destruct (N.eq_dec c' b) as [->|Hne].
+      * rewrite b7. rewrite Eb in m9. destruct (pget (p_cs p) b); cbn in m9 |- *.
+        -- discriminate.
+        -- right. right. repeat split. eauto.
+        -- destruct m9 as (i0&r0&H0&_). discriminate.
+      * assert (Hns : forall i m, stof (x_s x) c' <> CStall i m).
+        { intros i m H. apply Hne. assert (s_lock (x_s x) = Some c') by (apply (i_lock _ m1); eauto). congruence. }
+        rewrite <- (S2 c') in *.
+        destruct (b8 c' Hne) as [H8|H8]; rewrite H8; clear H8;
+          destruct (pget (p_cs p) c'); cbn in m9 |- *.
+        -- exact m9.
+        -- destruct m9 as [H|[(_&_&_&i0&H)|(_&H&_)]]; [now left | exfalso; eapply Hns; eauto | discriminate].
+        -- exact m9.
+        -- rewrite m9. reflexivity.
+        -- destruct m9 as [[i0 H]|[(_&_&_&i0&H)|(_&H&_)]]; [| exfalso; eapply Hns; eauto | discriminate].
+           rewrite H. cbn. right. right. repeat split. eauto.
+        -- destruct m9 as (i0&r0&H0&Hin). rewrite H0. cbn. eauto.
+  - (* nobody holds the writer lock *)
+    pose proof (p_lockshut s2 a2 a5) as Hfin. cbn zeta in Hfin.
+    destruct Hfin as (c1&c2&c3&c4&c5&c6&S4). set (s4 := do_step s2 LockShut) in *.
+    destruct M as [m1 m2 m3 m4 m5 m6 m7 m8 m9].
+    constructor; cbn [x_s x_faulted x_subq x_resid sp_phase p_phase p_cs p_stalled p_subq p_nn p_nprobe]; try assumption; try congruence.
+    + rewrite Ph in m3. exact m3.
+    + rewrite c2. replace (s_kind s2) with (k_kind k) by congruence. repeat split; congruence.
+    + intros c'. rewrite S4, S2. specialize (m9 c'). rewrite Ph in m9.
+      assert (Hns : forall i m, stof (x_s x) c' <> CStall i m).
+      { intros i m H. assert (s_lock (x_s x) = Some c') by (apply (i_lock _ m1); eauto). congruence. }
+      destruct (pget (p_cs p) c'); cbn in m9 |- *; try exact m9.
+      destruct m9 as [H|[(_&_&_&i0&H)|(_&H&_)]]; [now left | exfalso; eapply Hns; eauto | discriminate].
+Qed.
+
+(** *** the drain and the end of the response loop *)
+Lemma p_finish s : (s_rd s = RShutDone /\ s_kind s = KTcp) \/ (s_rd s = ROwnShut /\ s_kind s <> KTcp) -> s_lock s = None ->
+  let s' := finish s in
+  s_kind s' = s_kind s /\ s_rd s' = RDead /\ s_shut s' = s_shut s /\ s_lock s' = None /\ s_sub s' = s_sub s /\
+  s_nrecv s' = s_nrecv s /\ forall c, stof s' c = stof (drain_all s) c.
+Proof.
+  intros H L. cbn zeta. unfold finish. cbn [run fold_left do_step].
+  destruct H as [[R K]|[R K]]; rewrite R.
+  - rewrite K. cbn [set_rd drain_all set_pc s_rd s_kind s_shut s_lock s_sub s_nrecv]. repeat split; auto.
+  - destruct (s_kind s) eqn:K2; [congruence| |];
+      cbn [set_rd drain_all set_pc s_rd s_kind s_shut s_lock s_sub s_nrecv lock_free]; rewrite ?K2;
+      unfold lock_free; cbn [set_rd drain_all set_pc s_rd s_kind s_shut s_lock s_sub s_nrecv]; rewrite L;
+      cbn [set_rd drain_all set_pc s_rd s_kind s_shut s_lock s_sub s_nrecv]; repeat split; auto.
+Qed.
+
+Lemma drain_cases s c :
+  match stof s c with
+  | CWait i => stof (drain_all s) c = CWait i \/ stof (drain_all s) c = CDone i RConn
+  | CNone => stof (drain_all s) c = CNone
+  | CDone i r => stof (drain_all s) c = CDone i r
+  | _ => True
+  end.
+Proof.
+  rewrite stof_drain. destruct (stof s c) as [|id [x|]|id [x|]|id|id|id x]; try exact Logic.I;
+    destruct (has_caller (s_pending s) c); cbn; auto.
+Qed.
+
+Lemma sim_release k p x :
+  sim k p x -> p_phase p = PhWindow ->
+  sim k (sp_phase (sp_cs p (fail_flights (p_cs p))) PhDead) (exec_event x ERelease).
+Proof.
+  intros M Ph. pose proof (m_phase k p x M) as H. rewrite Ph in H. destruct H as (R&Sh&L).
+  cbn [exec_event].
+  assert (Hk : (s_rd (x_s x) = RShutDone /\ s_kind (x_s x) = KTcp) \/ (s_rd (x_s x) = ROwnShut /\ s_kind (x_s x) <> KTcp)).
+  { rewrite (m_kind k p x M), R. destruct (k_kind k); cbn; [left | right | right]; split; congruence. }
+  destruct (p_finish (x_s x) Hk L) as (a1&a2&a3&a4&a5&a6&S).
+  set (s' := finish (x_s x)) in *.
+  assert (I' : inv s') by (unfold s', finish; apply inv_run, (m_inv k p x M)).
+  destruct M as [m1 m2 m3 m4 m5 m6 m7 m8 m9].
+  constructor; cbn [x_s x_faulted x_subq x_resid sp_phase sp_cs p_phase p_cs p_stalled p_subq p_nn p_nprobe]; try assumption; try congruence.
+  - rewrite a5, m7, Ph. reflexivity.
+  - repeat split; congruence.
+  - intros c. rewrite pget_fail_flights. specialize (m9 c). rewrite Ph in m9.
+    pose proof (drain_cases (x_s x) c) as D. rewrite <- S in D.
+    destruct (pget (p_cs p) c) as [|kn|kn l]; cbn in m9 |- *.
+    + rewrite m9 in D. exact D.
+    + destruct m9 as [[i H]|[(_&H&_)|(_&_&i&H)]]; [| discriminate |].
+      * rewrite H in D. destruct D as [D|D].
+        -- exfalso. apply (dead_no_waiter s' c i I' (or_introl a2) D).
+        -- exists i, RConn. split; [assumption | now left].
+      * rewrite H in D. exists i, RConn. split; [assumption | now left].
+    + destruct m9 as (i&r&H&Hin). rewrite H in D. eauto.
+Qed.
+
+Lemma sim_fault k p x :
+  (k_sub k = true -> k_kind k = KWs) ->
+  sim k p x -> p_phase p = PhLive ->
+  sim k (sp_phase (sp_cs p (fail_flights (p_cs p))) PhDead) (exec_event x EFault).
+Proof.
+  intros Hk M Ph.
+  pose proof (sim_release k (sp_phase p PhWindow) (exec_event x EFaultPark) (sim_fault_park k p x Hk M Ph) eq_refl) as H.
+  exact H.
+Qed.
+
+(** *** every event *)
+Lemma live_phase p : live p = true -> p_phase p = PhLive.
+Proof. unfold live. destruct (p_phase p); congruence. Qed.
+
+Theorem sim_step k p x e p' :
+  (k_sub k = true -> k_kind k = KWs) ->
+  sim k p x -> spec_step k p e = Some p' -> sim k p' (exec_event x e).
+Proof.
+  intros Hk M Hs. destruct e as [c tmo|c|c|c|c|c|c| |c|c|c| | |c| | | |c].
+  - cbn [spec_step] in Hs. cbn [exec_event]. exact (sim_start k p x c true p' p' M Hs (sp_like_refl p')).
+  - cbn [spec_step] in Hs. destruct (sp_start (k_n k) p c false None) as [p0|] eqn:H0; [|discriminate].
+    inversion Hs; subst p'. cbn [exec_event]. apply (sim_start k p x c false p0 _ M H0).
+    destruct (live p); [|apply sp_like_refl]. unfold sp_like. cbn. tauto.
+  - cbn [spec_step] in Hs. cbn [exec_event]. exact (sim_expire k p x c p' M Hs).
+  - cbn [spec_step] in Hs. destruct (is_tcp (k_kind k) && live p) eqn:H; [|discriminate].
+    apply andb_prop in H. apply (sim_expire_a k p x c p'); [assumption | apply live_phase; tauto | assumption].
+  - cbn [spec_step] in Hs. destruct (live p) eqn:H; [|discriminate]. apply (sim_expire_b k p x c p'); [assumption | now apply live_phase | assumption].
+  - cbn [spec_step] in Hs. destruct (live p) eqn:H; [|discriminate]. apply (sim_expire_c k p x c p'); [assumption | now apply live_phase | assumption].
+  - exact (sim_respond k p x c p' M Hs).
+  - cbn [spec_step] in Hs. destruct (live p) eqn:H; [|discriminate]. inversion Hs; subst p'. apply sim_unknown; [assumption | now apply live_phase].
+  - exact (sim_cancel k p x c p' M Hs).
+  - exact (sim_cancel_b k p x c p' M Hs).
+  - exact (sim_cancel_c k p x c p' M Hs).
+  - exact (sim_notify k p x p' M Hs).
+  - exact (sim_query k p x p' M Hs).
+  - exact (sim_stall k p x c p' M Hs).
+  - cbn [spec_step] in Hs. destruct (live p) eqn:H; [|discriminate]. inversion Hs; subst p'. apply sim_fault; [assumption | assumption | now apply live_phase].
+  - cbn [spec_step] in Hs. destruct (live p) eqn:H; [|discriminate]. inversion Hs; subst p'. apply sim_fault_park; [assumption | assumption | now apply live_phase].
+  - cbn [spec_step] in Hs. destruct (p_phase p) eqn:Ph; try discriminate. inversion Hs; subst p'. now apply sim_release.
+  - exact (sim_probe k p x c p' M Hs).
+Qed.
+
+Lemma sim_run k p x l p' :
+  (k_sub k = true -> k_kind k = KWs) ->
+  sim k p x -> spec_run k p l = Some p' -> sim k p' (fold_left exec_event l x).
+Proof.
+  intros Hk. revert p x. induction l as [|e l IH]; intros p x M Hs; cbn [spec_run fold_left] in *.
+  - inversion Hs; subst. exact M.
+  - destruct (spec_step k p e) as [p1|] eqn:E; [|discriminate]. apply (IH p1); [|assumption].
+    now apply (sim_step k p x e p1).
+Qed.
+
+Lemma sim_init k : (k_sub k = true -> k_kind k = KWs) -> sim k sp0 (x0 k).
+Proof.
+  intros Hk. unfold x0. destruct (k_sub k) eqn:Ks.
+  - constructor; cbn; try reflexivity.
+    + apply (inv_do_step (init (k_kind k)) Subscribe), inv_init.
+    + unfold sub_of. now rewrite Ks.
+    + repeat split; auto.
+  - constructor; cbn; try reflexivity.
+    + apply inv_init.
+    + unfold sub_of. now rewrite Ks.
+    + repeat split; auto.
+Qed.
+
+(** ** the oracle accepts the model on every scenario of the specification *)
+Lemma oclass_eqb_refl a : oclass_eqb a a = true.
+Proof. destruct a; reflexivity. Qed.
+
+Lemma existsb_in a l : In a l -> existsb (oclass_eqb a) l = true.
+Proof. intros H. apply existsb_exists. exists a. split; [assumption | apply oclass_eqb_refl]. Qed.
+
+Lemma osub_eqb_refl a : osub_eqb a a = true.
+Proof. destruct a; reflexivity. Qed.
+
+Lemma list_eqb_refl {A} (eqb : A -> A -> bool) (l : list A) : (forall a, eqb a a = true) -> list_eqb eqb l l = true.
+Proof. intros H. induction l as [|a l IH]; [reflexivity|]. cbn [list_eqb]. now rewrite H, IH. Qed.
+
+Lemma class_allowed k p x c :
+  sim k p x -> p_phase p <> PhWindow ->
+  existsb (oclass_eqb (class_of (x_faulted x) (stof (x_s x) c))) (allowed_of (pget (p_cs p) c)) = true.
+Proof.
+  intros M Ph. pose proof (m_cs k p x M c) as C. pose proof (m_faulted k p x M) as F.
+  destruct (pget (p_cs p) c) as [|kn|kn l]; cbn in C |- *.
+  - rewrite C. reflexivity.
+  - destruct (p_phase p) eqn:E; [| congruence |].
+    + rewrite F. destruct C as [[i H]|[(_&_&_&i&H)|(_&H&_)]]; [rewrite H; reflexivity | rewrite H; reflexivity | discriminate].
+    + pose proof (m_phase k p x M) as H. rewrite E in H. destruct H as (R&_).
+      destruct C as [[i H]|[(_&H&_)|(_&H&_)]]; [|discriminate|discriminate].
+      exfalso. apply (dead_no_waiter (x_s x) c i (m_inv k p x M) (or_introl R) H).
+  - destruct C as (i&r&H&Hin). rewrite H. apply existsb_in. destruct r; exact Hin.
+Qed.
+
+Lemma res_ok_map k p x cl :
+  sim k p x -> p_phase p <> PhWindow ->
+  res_ok (p_cs p) cl (map (fun c => class_of (x_faulted x) (stof (x_s x) c)) cl) = true.
+Proof.
+  intros M Ph. induction cl as [|c cl IH]; [reflexivity|]. cbn [map res_ok].
+  now rewrite (class_allowed k p x c M Ph), IH.
+Qed.
+
+Theorem ok_model_C06 : forall k, c06_wf k = true -> ok_C06 k (model_C06 k) = true.
+Proof.
+  intros k W. unfold c06_wf, c06_valid in W. unfold ok_C06.
+  destruct (spec_final k) as [p|] eqn:SF; [|reflexivity].
+  unfold spec_final in SF.
+  destruct (k_sub k && negb (is_ws (k_kind k))) eqn:Hk0; [discriminate|].
+  assert (Hk : k_sub k = true -> k_kind k = KWs).
+  { intros Ks. rewrite Ks in Hk0. destruct (k_kind k); cbn in Hk0; congruence. }
+  destruct (spec_run k sp0 (k_script k)) as [p1|] eqn:SR; [|discriminate].
+  assert (Ph : p_phase p1 <> PhWindow /\ p = p1).
+  { destruct (p_phase p1) eqn:E; inversion SF; subst; split; congruence. }
+  destruct Ph as [Ph ->].
+  pose proof (sim_run k sp0 (x0 k) (k_script k) p1 Hk (sim_init k Hk) SR) as M.
+  unfold model_C06. set (x := fold_left exec_event (k_script k) (x0 k)) in *.
+  unfold obs_of. cbn [o_res o_sub o_subq o_nn o_resid].
+  rewrite (res_ok_map k p1 x _ M Ph).
+  rewrite (m_sub k p1 x M), (m_subq k p1 x M), (m_nn k p1 x M), (m_resid k p1 x M).
+  rewrite N.eqb_refl, (list_eqb_refl osub_eqb _ osub_eqb_refl).
+  rewrite (list_eqb_refl Bool.eqb _ (fun b => ltac:(destruct b; reflexivity))).
+  cbn [andb]. rewrite !andb_true_r.
+  unfold sub_of, live. destruct (k_sub k); [|reflexivity].
+  destruct (p_phase p1); [reflexivity | congruence | reflexivity].
+Qed.
+
+(** the kind of client never changes *)
+Lemma kind_do_step s e : s_kind (do_step s e) = s_kind s.
+Proof.
+  destruct e; cbn [do_step];
+    repeat match goal with |- context [match ?x with _ => _ end] => destruct x eqn:? end;
+    try reflexivity; try (rewrite fail_write_eq, kind_after_fail; reflexivity); cbn; congruence.
+Qed.
+
+Lemma kind_run s l : s_kind (run s l) = s_kind s.
+Proof.
+  revert s. induction l as [|e l IH]; intros s; [reflexivity|]. cbn [run fold_left].
+  change (s_kind (run (do_step s e) l) = s_kind s). rewrite IH. apply kind_do_step.
 Qed.
